@@ -317,7 +317,7 @@ def main(chk):
     for k in range(nexp):
         fmt = "kern" if k % 2 == 0 else "mei"
         while True:
-            part = gen_score.make_part(score, rng, pid="P1", divs=rng.choice([1, 2, 4] if fmt == "mei" else [1, 2, 4, 6, 12]), n_measures=rng.randint(1, 3),
+            part = gen_score.make_part(score, rng, pid="P1", divs=rng.choice([1, 2, 4, 6, 12]), n_measures=rng.randint(1, 3),
                                        voices=rng.choice([1, 2]), staves=rng.choice([1, 2]), pickup=False, ts_change=False, slurs=False, grace=False,
                                        ties=rng.random() < 0.5, chords=rng.random() < 0.5, max_notes=10 ** 6, rests=rng.random() < 0.5)
             # every written duration is a single note value (the writers have no other way to write it), and ties are
@@ -419,7 +419,7 @@ def main(chk):
                               replay={"file": written[:20000]}, op="export_mei", voice_with_inner_gaps=gaps2)
     chk.part("export_import", **stats)
     chk.assumptions += ["MEI: one part per staffDef, meter / key / clef on the staffDef as attributes or children, meter changes by scoreDef, layers filled completely",
-                        "export/import: parts with one or two staves and voices whose written durations are single note values; MEI export without tuplets (the writer needs Tuplet objects)"]
+                        "export/import: parts with one or two staves and voices whose written durations are single note values (plain, dotted, triplet), ties expressible by pitch"]
     chk.assumptions += ["kern: one part per spine, *staff / *clef / *k / *M given at the top, barlines in every spine, final ==; rhythm values 1-24 with up to two dots",
                         "positions and durations are compared exactly (rationals), the divisions must be a multiple of every denominator that occurs"]
 
